@@ -22,6 +22,7 @@ INVARIANT TwoFormulations
 INVARIANT Found
 INVARIANT NoOtherLeaves
 INVARIANT Export
+INVARIANT ExportNested
 PROPERTY Terminates
 """
 
@@ -32,6 +33,8 @@ def replay(rec: Dict[str, Any]) -> List[Tuple[str, Dict[str, Any], str]]:
 
     mq = untext(rec["match"])
     rels = [untext(r) for r in rec["rels"]]
+    if rec.get("nested"):
+        return replay_nested(rec, mq, rels)
     for style, key in ((Projection.FLAT, "flat"), (Projection.RELATIVE, "relative"), (Projection.ROOT, "root")):
         exp = [canon(v) for v in rec[key]]
         doc = untag(rec["doc"])
@@ -91,6 +94,29 @@ def replay(rec: Dict[str, Any]) -> List[Tuple[str, Dict[str, Any], str]]:
     return []
 
 
+def replay_nested(rec: Dict[str, Any], mq: str, rels: List[str]) -> List[Tuple[str, Dict[str, Any], str]]:
+    """One selection lies below another: the flat projection and 'the document is not modified' are still determined."""
+    import jsonpath
+    from jsonpath import Projection
+
+    for style, key in ((Projection.RELATIVE, "relative"), (Projection.ROOT, "root"), (Projection.FLAT, "flat")):
+        doc = untag(rec["doc"])
+        disc = ""
+        got: Any = None
+        try:
+            got = list(jsonpath.query(mq, doc).select(*rels, projection=style))
+            if canon(tag(doc)) != canon(rec["doc"]):
+                disc = "document-modified"
+            elif key == "flat" and [canon(tag(v)) for v in got] != [canon(v) for v in rec["flat"]]:
+                disc = "wrong-projection"
+        except BaseException as e:  # noqa: BLE001
+            disc = f"raised-{exc_family(e)}"
+        if disc:
+            return [(f"{key}:{disc}|nested-selections", {"doc": show(rec["doc"]), "match_query": mq, "relative_queries": rels, "style": key,
+                                                        "expected": [show(v) for v in rec["flat"]], "observed": got, "tagged": rec}, disc)]
+    return []
+
+
 def run(chk: Check, tier: str, seed: int) -> None:
     r = tlc("MC_Projection", CFG.format(n=2 if tier == "quick" else 3), timeout=3000)
     chk.add_tlc(r)
@@ -101,7 +127,7 @@ def run(chk: Check, tier: str, seed: int) -> None:
             chk.nontrivial.add((json.dumps(rec["doc"])[:40], untext(rec["match"]), tuple(untext(x) for x in rec["rels"])))
         for sig, case, what in res:
             chk.violation(sig, case, what)
-    for rec in [x for x in recs if x["relative"]][40:43]:
+    for rec in [x for x in recs if x.get("relative")][40:43]:
         chk.sample({"match": untext(rec["match"]), "select": [untext(x) for x in rec["rels"]], "relative": [show(v) for v in rec["relative"]], "root": [show(v) for v in rec["root"]]})
     chk.exhaustive = True
     chk.rule = ("terminal admissible states of MC_Projection.tla: 2 documents x 11 match queries x all lists of 1-2 (thorough 3) relative queries from a pool of 19 "
